@@ -185,6 +185,8 @@ class Ctx:
         if k < len(self.prefix):
             choice = self.prefix[k]
         else:
+            if getattr(self, 'deadline', None) and time.time() > self.deadline:
+                raise Unsupported("time budget exceeded")
             t = self.feasible(cond)
             if not t:
                 # the path condition is satisfiable (it was when we got here), so the negation must be
@@ -342,6 +344,7 @@ def explore(run_path, assert_on=True, max_paths=20000, setup=None, deadline=None
             break
         prefix = work.pop()
         ctx = Ctx(prefix, assert_on=assert_on)
+        ctx.deadline = deadline
         if setup:
             setup(ctx)
         try:
